@@ -20,12 +20,52 @@ def check(tier, seed):
     def vary(i, r):
         return {"big": i % 3 == 0, "liveness": i % 2 == 0, "unroutable": i % 5 == 0}
     R.engine(ck, PROP, tier, seed, {"faults": False, "vary": vary}, ("C02",), 160, 8000, proof_ok, nontrivial, "", allow_tags=("F10",), project=("T",))
+    # overload (monitor only; the model has no notion of a slow reader): one or two sources push several hundred
+    # single-task batches, back to back, at a target that drains slowly, so that the owner's hand-off queue (capacity
+    # 100) stays full for a long time; every task must still arrive exactly once, in source order, in a well-formed stream
+    overload = []
+    for delay, n1, n2 in ((5, 400, 0), (20, 260, 150), (2, 330, 0)) if tier == "quick" else ((5, 400, 0), (20, 260, 150), (2, 330, 0), (1, 900, 300), (50, 150, 150), (10, 500, 500)):
+        h = ["I 2 2", "C 0", "C 1", "XD 0 %d" % delay, "SB 0 %d 1000 0" % n1]
+        if n2:
+            h += ["SB 1 %d 5000 0" % n2, "SB 0 %d %d 0" % (n2, 1000 + n1)]
+        h += ["S 0 9000 2 8000 1 q1 8001 0 q2", "E", "E"]
+        overload.append(h)
+    errs, oimpl = R.run_impl(overload, "c02o")
+    if errs:
+        ck.obligation("overload run", False, errs[:1500])
+    else:
+        bad = []
+        for h, ev in zip(overload, oimpl):
+            v, info = R.monitor(h, ev)
+            v = [x for x in v if x[0] == "C02"]
+            missing = [pay for pays in info["received"].values() for pay in pays if pay not in info["fwd"]]
+            if v or missing:
+                bad.append((h, v[:3], missing[:5]))
+        ck.obligation("with the owner's hand-off queue kept full by bursts of several hundred batches at a slowly draining target (%d load profiles) every task still arrives once, in source order, "
+                      "in a well-formed stream" % len(overload), not bad, "%d profiles fail" % len(bad))
+        if bad and not ck.violations:
+            h, v, missing = bad[0]
+            ck.violation({"kind": "overload", "history": h, "verdict": [str(x) for x in v], "missing": missing},
+                         "C02 under overload: " + ("; ".join(x[2] for x in v) if v else "tasks never delivered: %s" % missing))
     return ck.finish(rule="as C01 plus batches containing unroutable tasks and completion rounds; monitor: every forwarded task was received, is on its owner's stream, at most once, payload "
                           "unchanged, per-(source,target) order kept, proxy ids strictly increasing, task-bearing watermark above last id and above every earlier watermark, everything delivered "
                           "after the completion rounds; non-trivial = multi-task batch with >= 2 sources or targets")
 
 
-replay = R.replay
+def replay(data):
+    if data.get("kind") == "overload":
+        err, impl = R.run_impl([data["history"]], "c02r")
+        if err:
+            print(err)
+            return 1
+        v, info = R.monitor(data["history"], impl[0])
+        v = [x for x in v if x[0] == "C02"]
+        missing = [pay for pays in info["received"].values() for pay in pays if pay not in info["fwd"]]
+        for x in v[:10]:
+            print(x)
+        print("undelivered:", missing[:10])
+        return 1 if v or missing else 0
+    return R.replay(data)
 
 MANIFEST = {
     "technique": "Coq invariant proofs over all action sequences of the routing transition system (exact placement of every received task, source order, fresh increasing ids) + "
